@@ -1312,7 +1312,7 @@ class TreeSim(WorldBase):
 
     def _close(self, t, targets):
         try:
-            if t.gen is not None:
+            if t.gen is not None and hasattr(t.gen, "close"):        # (an iterator that is not a generator has nothing to close)
                 t.gen.close()
         finally:
             t.done = True
